@@ -122,12 +122,13 @@ for n, p in enumerate(req["programs"]):
             b = pkg.to_bytes()
             rec.update(outcome="ok", text=hashlib.sha256(b).hexdigest(), nbytes=len(b))
     except GuppyError as e:
-        rec.update(outcome="error", text=render(e).replace(path, "<prog>"))
+        rec.update(outcome="error", text=render(e).replace(path, "<prog>").replace(os.path.basename(path), "<prog>"))
     except BaseException as e:  # noqa: BLE001
         if type(e).__name__ in ("SystemExit",) :
             rec.update(outcome="error", text="SystemExit")
         else:
-            rec.update(outcome="crash", text=(type(e).__name__ + ": " + str(e))[:600].replace(path, "<prog>"),
+            rec.update(outcome="crash",
+                       text=(type(e).__name__ + ": " + str(e))[:600].replace(path, "<prog>").replace(os.path.basename(path), "<prog>"),
                        tb=traceback.format_exc()[-1500:].replace(path, "<prog>"))
     out.append(rec)
 json.dump(out, sys.stdout)
